@@ -73,9 +73,22 @@ def check_weight_pairing(ctx, model, p, want_dir):
                kind="unrecognised")
         return
     g, a = r["global"], r["addr"]
-    same = bool(g[1]) and g[1] == a[1] and all(o.kind == "call" and o.a == WEIGHT for o in g[1])
+    def from_weight(os_):
+        # the value is a calculate_weight result, or a difference of two such results (telescoping increment)
+        for o in os_:
+            if o.kind == "call" and o.a == WEIGHT:
+                continue
+            c = call_of(v, o)
+            if c and mname(c[1]).endswith("Uint128::checked_sub"):
+                a0 = v.origins_of_operand(c[1]["args"][0], at=v.at_term(c[0]))
+                a1 = v.origins_of_operand(c[1]["args"][1], at=v.at_term(c[0]))
+                if a0 and a1 and all(x.kind == "call" and x.a == WEIGHT for x in a0 | a1):
+                    continue
+            return False
+        return bool(os_)
+    same = bool(g[1]) and g[1] == a[1] and from_weight(g[1])
     ctx.ob("C13-W1", "%s|same-weight-value" % p, same,
-           "GLOBAL_WEIGHT %s %s ; ADDRESS_WEIGHT %s %s (must be one calculate_weight result)" % (g[0], sorted(map(repr, g[1])), a[0], sorted(map(repr, a[1]))),
+           "GLOBAL_WEIGHT %s %s ; ADDRESS_WEIGHT %s %s (must be one value derived from calculate_weight)" % (g[0], sorted(map(repr, g[1])), a[0], sorted(map(repr, a[1]))),
            v.where(g[2]))
     ctx.ob("C13-W1", "%s|direction" % p, g[0] == a[0] == want_dir, "global: %s, address: %s, expected: %s" % (g[0], a[0], want_dir), v.where(g[2]))
     prev_ok = bool(a[3]) and all(o.kind == "load" and o.a.endswith("::state::ADDRESS_WEIGHT") for o in a[3])
